@@ -165,6 +165,14 @@ func init() {
 				CompositeProb: 0.2, KeyUniverse: 24, NestedTargetBias: 0.25, KeepProb: 0, MaxElems: []int{12, 60, 200, 600}[r.Pick([]int{1, 3, 3, 1})],
 				GrowBias: 0.6, ChildInit: 4,
 			}
+			if r.Sub("keep").Chance(0.3) {
+				// containers handed back by a removal or an overwrite stay in use (they are arrays / maps like any other:
+				// every in-range request on them must succeed), bulk pops through nested handles are frequent
+				p.KeepProb = 0.5
+				p.NestProb = 0.2
+				p.NestedTargetBias = 0.5
+				p.W["popall"] = 4
+			}
 			return p
 		},
 		check: deepCheck,
@@ -193,6 +201,13 @@ func init() {
 				LargeProb: []float64{0, 0.05, 0.2}[r.Intn(3)], BoundaryProb: []float64{0.05, 0.2, 0.5}[r.Intn(3)],
 				CompositeProb: 0.2, KeyUniverse: []int{8, 40, 150, 400}[r.Intn(4)], NestedTargetBias: 0.25, MaxElems: []int{12, 60, 200, 600}[r.Pick([]int{1, 3, 3, 1})],
 				GrowBias: 0.6, ChildInit: 4, LongKeyProb: 0.06,
+			}
+			if r.Sub("keep").Chance(0.3) {
+				// containers handed back by a removal or an overwrite stay in use; bulk pops through nested handles
+				p.KeepProb = 0.5
+				p.NestProb = 0.2
+				p.NestedTargetBias = 0.5
+				p.W["popall"] = 4
 			}
 			if r.Chance(0.3) {
 				// a small share of benign harness digesters with a mild collision rate
